@@ -66,6 +66,7 @@ package anyutil
 //@   ensures[error-gives-nil] result1 != nil ==> result0 == nil
 //@   ensures[type-url-is-slash-fullname] result1 == nil ==> result0.TypeUrl == "/" + string(src.ProtoReflect().Descriptor().FullName())
 //@   ensures[nil-source-is-an-error] src == nil ==> result1 != nil
+//@   ensures[value-is-the-default-encoding] result1 == nil ==> result0.Value == first(proto.MarshalOptions{}.Marshal(src))
 
 //@ func Unpack
 //@   property C16
